@@ -115,6 +115,13 @@ CHECKS = {
                      "through field access, enum unions: declared domains must be exactly the existing instances of the type and subtypes, "
                      "solutions must pick one value per variable that satisfies every constraint, fields must hold what was written.",
                 note="At most 5 instances; enum values are compared by count and identity (strings are not exposed by name in the JSON)."),
+    "C20": dict(engine="schedmc", category="model_checking", design_ref="DESIGN.md §4 C20",
+                technique="stateless preemption-bounded exhaustive schedule exploration of the real thread_pool/pivot code under an interposed cooperative pthread scheduler; free-running ThreadSanitizer pass for data races",
+                text="Every schedule within the preemption bound of the pool workers and the pivoting thread, for 7 scenarios x pool sizes 1-3, is "
+                     "executed on the PARALLELIZE build: no deadlock, pool quiescent when pivot returns, and all observables (verdicts, tableau, "
+                     "watch sets, values, bounds, learnt clause set) equal the sequential build. Unsynchronised accesses are looked for by "
+                     "ThreadSanitizer on free runs of the same bodies.",
+                note="Bounds per scenario/pool are listed in the evidence (levels_completed); race-freedom rests on a dynamic detector over sampled free runs, as a serialising scheduler cannot see races."),
 }
 
 PENDING_REASON = "check not built yet in this round (planned, see DESIGN.md §4); not claimed until its quick and thorough tiers have run to completion on the unchanged tree"
@@ -173,6 +180,8 @@ ENGINES = [
      "kind_free_text": "exhaustive relation-request enumeration judged on a model grid with pinned variables (real lra/idl/rdl theories)"},
     {"name": "progrun", "path": "harness/progrun.cpp + lib/riddle.py + lib/fam_*.py", "serves_properties": ["C01", "C02", "C03", "C04", "C05", "C06", "C16", "C17"],
      "kind_free_text": "program-level exhaustive enumeration: Python generators with exact reference semantics, real solver run per program in forked children, validators on the official JSON solution"},
+    {"name": "schedmc", "path": "harness/schedmc.cpp + engine/vsched.h + harness/seqref.cpp + harness/racefree.cpp", "serves_properties": ["C20"],
+     "kind_free_text": "CHESS-style preemption-bounded schedule exploration over interposed pthread primitives; sequential-build reference; TSan free-running pass"},
     {"name": "lexmc", "path": "harness/lexmc.cpp", "serves_properties": ["C16", "C18"],
      "kind_free_text": "exhaustive text enumeration through the RIDDLE lexer/parser (reference lexer, AST capture via virtual factories, crash/hang isolation)"},
     {"name": "netmc", "path": "harness/netmc.cpp", "serves_properties": ["C07", "C08", "C09", "C10", "C14"],
